@@ -11,7 +11,7 @@ from mc import core, jobs
 from mc.jobs import J
 
 PROP = 'C11'
-TECH = 'exhaustive enumeration of an input grid (argument sizes x batch sizes x journal kinds x append modes x shapes), each point executed on real SyncObj nodes under the default schedule; explicit-state BFS over deviation schedules at boundary sizes'
+TECH = 'exhaustive enumeration of an input grid (argument sizes x batch sizes x journal kinds x append modes x shapes), each point executed on real SyncObj nodes under the default schedule; explicit-state BFS over all schedules (drops, reconnects, extra heartbeats, a re-elected former leader) of clusters in which every entry travels in chunks'
 ASSUME = ['payload bytes are a repeated pattern (content does not influence chunking, only length does)',
           'default schedule = submit on leader, heartbeats until quiescence; deviations = one drop+reconnect and extra heartbeats between any two messages']
 
@@ -116,7 +116,7 @@ def grid_job(name, n, batch_bytes, sizes, journal=None, batch=True, shape='pos',
             if known.match(PROP, v.sig):
                 res.known[v.sig] = res.known.get(v.sig, 0) + 1
             else:
-                res.violations.append(dict(msg=v.msg, sig=v.sig, trace=trace, size=L))
+                res.violations.append(dict(msg=v.msg, sig=v.sig, trace=[['grid-point', L]] + [list(e[:2]) + [repr(e[2])[:40]] if e[0] == 'SA' else list(e) for e in trace], size=L))
                 if len(res.violations) >= 3:
                     break
         res.states += 1
@@ -167,18 +167,57 @@ def grid_jobs(tier):
     return out
 
 
+CL = ('C01', 'C02', 'C04', 'C11')
+XM = (('mc.monitors', 'ExceptionMonitor', dict(prop='C11')),)
+
+
+def chunk_specs(tier):
+    """Deviation schedules on the chunk path: every command is larger than the batch size, so each entry
+    travels as start/process/finish messages; drops, reconnects, extra heartbeats and leader changes in between."""
+    q = tier == 'quick'
+    js = [
+        J('chunks-steady2-b8:S1H2X1R1', 'steady', dict(n=2, batch_bytes=8), dict(S=1, H=2, X=1, R=1), dict(k=0)),
+        J('chunks-steady2-b4:S1H2X1R1', 'steady', dict(n=2, batch_bytes=4), dict(S=1, H=2, X=1, R=1), dict(k=0)),
+        J('chunks-reelected3-b8:R1H4', 'reelected_cache3', dict(n=3, batch_bytes=8), dict(R=1, H=4)),
+        J('chunks-lagging3-b8:H2R1X1', 'lagging', dict(n=3, batch_bytes=8), dict(H=2, R=1, X=1)),
+    ]
+    if not q:
+        js += [J('chunks-steady3-b8:S2H3X2R2', 'steady', dict(n=3, batch_bytes=8), dict(S=2, H=3, X=2, R=2), dict(k=0)),
+               J('chunks-deposed3-b8:H3R2', 'deposed', dict(n=3, batch_bytes=8), dict(H=3, R=2), dict(black=True)),
+               J('chunks-reelected3-b8:R2H5X1', 'reelected_cache3', dict(n=3, batch_bytes=8), dict(R=2, H=5, X=1))]
+    for j in js:
+        j['max_states'] = 300000 if q else 2500000
+    return js
+
+
+def replay_grid(name, trace):
+    """Confirmation of a grid violation: run that grid point again."""
+    table = {}
+    for t in ('quick', 'thorough'):
+        for _, kw in grid_jobs(t):
+            table.setdefault(kw['name'], kw)
+    kw = dict(table[name], sizes=[trace[0][1]])
+    r = grid_job(**kw)
+    return r.violations[0]['msg'] if r.violations else None
+
+
 def main(tier, seed, job_filter=None):
-    rep = core.Report(PROP, tier, seed, TECH, ASSUME)
     js = grid_jobs(tier)
     if job_filter:
         js = [j for j in js if job_filter in j[1]['name']]
-    rep.add(core.run_jobs(js))
-    rep.extra['grid_points'] = sum(r.extra.get('grid_points', 0) for r in rep.results)
-    return rep.finish()
+    grid = core.run_jobs(js) if js else []
+    return jobs.run_cluster_check(PROP, tier, seed, chunk_specs(tier), CL, TECH, ASSUME, job_filter, extra_monitors=XM,
+                                  extra_results=grid, extra_replay=replay_grid)
 
 
 def replay_file(path):
     import json
     d = json.load(open(path))
-    print('replay of grid jobs: re-run ./check C11 --job %s' % d['job'])
-    return 2
+    if d['job'].startswith('grid'):
+        msg = replay_grid(d['job'], d['trace'])
+        print('replay:', msg)
+        if msg:
+            print('VIOLATION property=%s replay=%s' % (PROP, path))
+            return 1
+        return 0
+    return jobs.replay_file_cluster(PROP, path, [dict(s, clauses=CL, extra_monitors=XM) for s in chunk_specs('thorough')])
